@@ -101,6 +101,14 @@ def run_case(ctx, mon, cfg_id, terms, prods, inputs_spec=None, rng=None):
         ctx.violation("grammar-rejected-for-one-factorization-setting-only",
                       {"smart_factorization": ctor_error[0], "type": ctor_error[1], "msg": ctor_error[2]},
                       dict(base_case, inputs=[]))
+    if not parsers and ctor_error is not None:
+        # both settings reject the grammar: fine for a malformed one, not for a grammar that is LL(1) as written
+        # and uses only declared symbols and terminals of the tokenizer
+        symbols = {x for alts in prods.values() for a in alts for x in a}
+        well_formed = all(prods[k] for k in prods) and symbols <= set(prods) | set(cfg.terminals)
+        if well_formed and gram.is_ll1(prods, start):
+            ctx.violation("ll1-grammar-rejected-by-constructor",
+                          {"type": ctor_error[1], "msg": ctor_error[2][-150:]}, dict(base_case, inputs=[]))
     if len(parsers) < 2:
         return None
     ctx.count("grammars")
@@ -135,7 +143,18 @@ def run_case(ctx, mon, cfg_id, terms, prods, inputs_spec=None, rng=None):
         for toks in build_inputs(rng, prods, start, terms):
             text, expected = cfg.render(rng, toks, dense=rng.random() < 0.2)
             inputs_spec.append((toks, text, expected, rng.random() < 0.3))
-    for toks, text, expected, as_lines in inputs_spec:
+    for k_input, (toks, text, expected, as_lines) in enumerate(inputs_spec):
+        if k_input == 1 and len(prods) > 1:
+            # somebody parses a fragment, starting from another symbol (the per-call start symbol)
+            other = sorted(nt for nt in prods if nt != start)[0]
+            for parser in parsers.values():
+                try:
+                    parser.parse(text, start_symbol_name=other)
+                except llparser.Error:
+                    pass
+                except llmon.BudgetExceeded:
+                    pass
+            ctx.count("fragment_parses_with_another_start_symbol")
         member = gram.earley(prods, start, toks)
         ref_tree = gram.ll1_parse(prods, start, toks) if ll1 else None
         if ll1 and (ref_tree is not None) != member:
